@@ -2,7 +2,10 @@
    recursive-descent reference tokenizer of ShellSpec.v. *)
 From Coq Require Import NArith List Bool Lia.
 Import ListNotations.
-From Mds Require Import Gen.ShellTable Shell.ShellModel Shell.ShellSpec Shell.ShellSession.
+From Mds Require Import Gen.ShellTable Shell.ShellModel Shell.ShellSpec Shell.ShellSession Shell.ShellSkel.
+(* the proofs are about the hand transcription of the skeleton; ShellFinal.v transports them to the
+   model assembled from the generated skeleton facts (ShellSkel.v: model = transcription) *)
+Import ShellSkel.Hand.
 Local Open Scope N_scope.
 Arguments update !s !c /.
 
